@@ -1,6 +1,7 @@
 package main
 
 import (
+	"bytes"
 	"context"
 	"encoding/json"
 	"fmt"
@@ -89,6 +90,32 @@ func clientOps(rep *Report, f *icl.File, variant int) {
 		b, err := json.Marshal(v)
 		return err == nil && json.Unmarshal(b, out) == nil
 	}
+	// GetICLFiles must list the file as GetICLFileByID returns it, at every point of the history (the list is fetched
+	// before the first change too, so that a listing kept from an earlier call would show)
+	listAgrees := func(step string) {
+		list, _, lerr := api.GetICLFiles(ctx, nil)
+		one, _, oerr := api.GetICLFileByID(ctx, create.ID, nil)
+		if lerr != nil || oerr != nil {
+			rep.count("client-op:list:client-cannot-decode")
+			return
+		}
+		rep.Evaluations++
+		for _, e := range list {
+			if e.ID != create.ID {
+				continue
+			}
+			a, _ := json.Marshal(e)
+			b, _ := json.Marshal(one)
+			if !bytes.Equal(a, b) {
+				m := firstFieldDiff(reflect.ValueOf(one), reflect.ValueOf(e))
+				rep.violate(Violation{Key: "C20:client-op:list-differs-from-get:" + m, What: "GetICLFiles lists the file differently from what GetICLFileByID returns (" + step + "): " + m,
+					Replay: map[string]any{"step": step, "listed": string(a)[:min(600, len(a))], "by_id": string(b)[:min(600, len(b))]}})
+			}
+			return
+		}
+		rep.violate(Violation{Key: "C20:client-op:list-misses-file", What: "GetICLFiles does not list the file GetICLFileByID returns (" + step + ")", Replay: map[string]any{"step": step, "id": create.ID}})
+	}
+	listAgrees("after create")
 	// header updates: fully populated, then with the optional members blank, then populated again
 	var h1 client.IclFileHeader
 	if !viaClient(&f.Header, &h1) {
@@ -109,6 +136,7 @@ func clientOps(rep *Report, f *icl.File, variant int) {
 			continue
 		}
 		rep.count("client-op:update-header:ok")
+		listAgrees(fmt.Sprintf("after header update #%d", i+1))
 		g := stored()
 		var got client.IclFileHeader
 		if g == nil || !viaClient(&g.Header, &got) {
